@@ -63,11 +63,65 @@ def scenarios():
         out.append(("json-lines", {"limit": limit}, lambda limit=limit: JSONSerializer(use_lines=True, limit=limit), [{"a": 1}, [1, 2], "s", 5]))
     out.append(("base64", {}, lambda: Base64EncoderSerializer(StringLineSerializer(), checksum=True, limit=128), ["hello", "w", "xyz" * 5]))
     out.append(("line-crlf", {}, lambda: StringLineSerializer("CRLF", limit=16), ["abc", "d\r", "\ne", "ff"]))
+    out.append(("line-idna", {}, lambda: StringLineSerializer("LF", encoding="idna", limit=32), ["abc", "www.example.org", "b"]))
+    out.append(("line-utf16", {}, lambda: StringLineSerializer("LF", encoding="utf-16-le", limit=32), ["ab", "c"]))
     out.append(("struct", {}, lambda: NamedTupleStructSerializer(Pt, {"x": "h", "y": "b"}), [Pt(1, 2), Pt(-3, 4), Pt(300, 0)]))
     Rec = collections.namedtuple("Rec", "key n tag")
     out.append(("struct-strings", {}, lambda: NamedTupleStructSerializer(Rec, {"key": "6s", "n": "h", "tag": "3s"}, format_endianness="!"),
                 [Rec("abc", 1, "xyz"), Rec("\0lead", -2, "\0z"), Rec("a\0b", 3, ""), Rec("", 0, "q")]))
     return out
+
+
+BAD_FRAMES = {"filebased": b"\x02!!", "json-lines": b"{nope\n", "line-crlf": b"\xff\xfe\r\n", "base64": b"QUJD\r\n",
+              "line-idna": b"xn--a\n", "line-utf16": b"\x00\xd8x\n", "json-raw": b"{nope}", "struct-strings": b"\xff\xfe\xfd\xfc\xfb\xfa\x00\x01abc"}
+
+
+def oneshot():
+    """C05 / C06 one-shot mode: deserialize(serialize(p)) == p for every scenario packet, through the serializer and through
+    DatagramProtocol; a malformed datagram gives exactly one DatagramProtocolParseError and nothing else."""
+    from easynetwork.exceptions import DatagramProtocolParseError, DeserializeError
+    from easynetwork.protocol import DatagramProtocol
+
+    cases = 0
+    for name, cfg, make, packets in scenarios():
+        ser = make()
+        proto = DatagramProtocol(make())
+        for p in packets:
+            cases += 1
+            try:
+                d = ser.serialize(p)
+                got = ser.deserialize(d)
+                got2 = proto.build_packet_from_datagram(proto.make_datagram(p))
+            except Exception as e:  # noqa: BLE001
+                return {"reproduced": True, "mode": "oneshot", "serializer": name, "config": cfg, "packet": repr(p), "violation": {"raised": type(e).__name__},
+                        "rule": "a sent packet must deserialize from its own datagram (C05)", "cases": cases}
+            if repr(got) != repr(p) or repr(got2) != repr(p):
+                return {"reproduced": True, "mode": "oneshot", "serializer": name, "config": cfg, "packet": repr(p), "violation": {"got": repr(got), "via_protocol": repr(got2)},
+                        "datagram": d.hex(), "rule": "the datagram payload must deserialize to the sent packet (C05)", "cases": cases}
+        bads = [BAD_FRAMES[name]] if name in BAD_FRAMES else []
+        if packets:
+            d = ser.serialize(packets[0])
+            bads += [d + d] if name not in ("line-crlf", "line-idna", "line-utf16", "json-lines", "base64") else []  # two packets in one datagram
+            bads += [d[:-1]] if name in ("filebased", "struct", "struct-strings", "zlib", "bz2") else []  # truncated datagram
+        for b in bads:
+            cases += 1
+            for what, f in (("serializer", lambda: ser.deserialize(b)), ("protocol", lambda: proto.build_packet_from_datagram(b))):
+                try:
+                    r = f()
+                    if name in ("json-raw", "json-lines") and b in (BAD_FRAMES.get(name),):
+                        bad = {"returned": repr(r)}
+                    elif b == BAD_FRAMES.get(name) or b.startswith(d):
+                        bad = {"returned": repr(r)}
+                    else:
+                        bad = None
+                except (DeserializeError, DatagramProtocolParseError) as e:
+                    bad = None if isinstance(e, DeserializeError if what == "serializer" else DatagramProtocolParseError) else {"raised": type(e).__name__}
+                except Exception as e:  # noqa: BLE001
+                    bad = {"raised": type(e).__name__}
+                if bad is not None:
+                    return {"reproduced": True, "mode": "oneshot", "serializer": name, "config": cfg, "datagram": b.hex(), "via": what, "violation": bad,
+                            "rule": "a malformed / merged / truncated datagram yields exactly one parse error and no other exception (C05/C06)", "cases": cases}
+    return {"reproduced": False, "cases": cases, "exhaustive": True, "bound": "scenarios() packets + one malformed, one doubled, one truncated datagram each"}
 
 
 def comps(n):
@@ -180,8 +234,8 @@ def search(budget):
                     if cases >= budget:
                         return {"reproduced": False, "cases": cases, "exhaustive": False}
         # one corrupted frame between two good ones: same outcome kinds for every chunking, nothing but parse errors, termination
-        if name in ("filebased", "json-lines", "line-crlf", "base64"):
-            badframe = {"filebased": b"\x02!!", "json-lines": b"{nope\n", "line-crlf": b"\xff\xfe\r\n", "base64": b"QUJD\r\n"}[name]
+        if name in BAD_FRAMES:
+            badframe = BAD_FRAMES[name]
             stream = wires[0] + badframe + wires[1]
             ref, _ = run_copy(make(), stream, tuple([1] * len(stream)))
             kinds = [o[0] for o in ref]
@@ -218,7 +272,12 @@ def main():
     ap = argparse.ArgumentParser()
     ap.add_argument("--budget", type=int, default=300000)
     ap.add_argument("--replay")
+    ap.add_argument("--oneshot", action="store_true")
     a = ap.parse_args()
+    if a.oneshot or (a.replay and json.load(open(a.replay))["witness"].get("mode") == "oneshot"):
+        r = oneshot()
+        print(json.dumps(r))
+        return 1 if (a.replay and r.get("reproduced")) else 0
     if a.replay:
         r = replay(json.load(open(a.replay))["witness"])
         print(json.dumps(r))
